@@ -9,6 +9,8 @@
 #endif
 #include <mutex>
 #include <thread>
+#include <atomic>
+#include <ctime>
 using namespace vf;
 using namespace orc;
 
@@ -186,14 +188,23 @@ static void pred_ysched(const Case &c) {
 #endif
 
 // ---- freerun: free-running threads, repeated runs bit-identical; replayed under ThreadSanitizer ------------
+// The wall clock seen by the library is a counter that changes at every call (linker --wrap=time): a routine that falls back to a
+// clock seed because nobody seeded its thread's generator gives a different result at every repetition, not once per second.
+extern "C" time_t __wrap_time(time_t *t) { static std::atomic<long> clk{1700000000L}; long v = clk.fetch_add(7919); if (t) *t = (time_t)v; return (time_t)v; }
+
 static void gen_free(Draw &d, Case &c) {
-  int kind = (int)d.i(0, 4);   // 0 bootstrap, 1 yscrambling(LOO), 2 yscrambling(bootstrap), 3 kmeans, 4 kfold/loo
+  int kind = (int)d.i(0, 5);   // 0 bootstrap, 1 yscrambling(LOO), 2 yscrambling(bootstrap), 3 kmeans, 4 kfold/loo, 5 EPLS (random subspace) under LOO
   int learner = kind == 3 ? L_MLR : (int)d.pick<int>({L_PLS, L_MLR});
-  if (kind == 1 || kind == 2) learner = L_PLS;
-  Data D = small_data(d, learner, kind == 2 ? 8 : 10, kind == 2 ? 12 : 60);
+  if (kind == 1 || kind == 2 || kind == 5) learner = L_PLS;
+  Data D = small_data(d, learner, kind == 2 ? 8 : 10, kind == 2 ? 12 : (kind == 5 ? 16 : 60));
+  if (kind == 5) {   // three variables, so that the random subspace (2 of 3) is a real choice
+    auto x = d.ivec((size_t)D.n * 3, -500, 500); M X3(D.n, 3);
+    for (int i = 0; i < D.n; i++) for (int j = 0; j < 3; j++) X3(i, j) = (double)x[(size_t)i * 3 + j] / 16.0 + (j == 0 ? i * 3.0 : j == 1 ? -(double)i : (double)((i * 7) % 5));
+    D.X = X3; D.p = 3; for (int i = 0; i < D.n; i++) for (int j = 0; j < D.ny; j++) D.Y(i, j) = (double)(2.0 * X3(i, 0) - X3(i, 1) + 4.0 * X3(i, 2) + D.Y(i, j) * 0.01);
+  }
   int threads = (int)d.i(2, 4), iters = threads * (int)d.i(1, 3), groups = (int)d.i(3, 5), seed = (int)d.i(1, 100000), k = (int)d.i(2, 4), init = (int)d.i(0, 1);
   put_data(c, D); c.p.insert(c.p.end(), {kind, threads, iters, groups, seed, k, init});
-  c.nontrivial = true; c.tags.push_back(fmt("kind=%s", kind == 0 ? "bootstrap" : kind == 1 ? "yscrambling-loo" : kind == 2 ? "yscrambling-bootstrap" : kind == 3 ? "kmeans" : "kfold+loo"));
+  c.nontrivial = true; c.tags.push_back(fmt("kind=%s", kind == 0 ? "bootstrap" : kind == 1 ? "yscrambling-loo" : kind == 2 ? "yscrambling-bootstrap" : kind == 3 ? "kmeans" : kind == 4 ? "kfold+loo" : "epls-random-subspace-loo"));
 }
 static M free_once(const Data &D, int kind, int threads, int iters, int groups, int seed, int k, int init) {
   if (kind == 0) return run_boot(D, groups, iters, threads);
@@ -211,6 +222,12 @@ static M free_once(const Data &D, int kind, int threads, int iters, int groups, 
     for (size_t i = 0; i < lab->size; i++) R((int)i, 0) = (ld)lab->data[i];
     for (size_t i = 0; i < cen->row; i++) for (size_t j = 0; j < cen->col; j++) R((int)(lab->size + i), (int)j) = cen->data[i][j];
     DelUIVector(&lab); DelMatrix(&cen);
+  } else if (kind == 5) {
+    MODELINPUT in = initModelInput(); in.mx = mx; in.my = my; in.nlv = 1; in.xautoscaling = 1; in.yautoscaling = 0;
+    ELearningParameters ep = initElearningParameters(); ep.algorithm = FixedRandomSubspaceMethod; ep.n_models = 4; ep.r_fix = (size_t)std::max(1, D.p - 1);   // a proper subset of the variables: which ones are drawn matters ep.trainsize = 0.7;
+    matrix *p1, *r1; initMatrix(&p1); initMatrix(&r1);
+    LeaveOneOut(&in, _EPLS_, p1, r1, (size_t)threads, NULL, 2, ep, Averaging);
+    R = from_lib(p1); DelMatrix(&p1); DelMatrix(&r1);
   } else {
     MODELINPUT in = initModelInput(); in.mx = mx; in.my = my; in.nlv = (size_t)D.nlv; in.xautoscaling = 1; in.yautoscaling = 0;
     matrix *p1, *r1, *p2, *r2; initMatrix(&p1); initMatrix(&r1); initMatrix(&p2); initMatrix(&r2);
@@ -246,6 +263,20 @@ static void pred_free(const Case &c) {
   }
 }
 
+// ------------------------------------------------------------------------------------------------
+// the seeded stream itself: seeding twice with the same value gives the same draws - also for the seeds whose internal state is 0
+// (state 0 doubles as "never seeded" and falls back to the clock, which here changes at every call)
+static void gen_reseed(Draw &d, Case &c) {
+  int64_t seed = d.coin(30) ? d.pick<int64_t>({1232228639LL, 614390260LL, 0LL, 1LL, 4294967295LL}) : d.i(0, 4294967295LL);
+  c.p = {seed, d.i(1, 12)}; c.nontrivial = true; c.tags.push_back(seed == 1232228639LL || seed == 614390260LL ? "seed-with-zero-state" : "seed=any");
+}
+static void pred_reseed(const Case &c) {
+  uint32_t seed = (uint32_t)c.p[0]; int n = (int)c.p[1];
+  std::vector<double> a, b;
+  for (int rep = 0; rep < 2; rep++) { srand_(seed); auto &v = rep ? b : a; for (int i = 0; i < n; i++) { v.push_back((double)randInt(0, 1000000)); v.push_back(rand_()); v.push_back(randDouble(-1, 1)); } }
+  for (size_t i = 0; i < a.size(); i++) VF_CHECK(a[i] == b[i], "draw %zu after srand_(%u) is %.17g the first time and %.17g the second time", i, seed, a[i], b[i]);
+}
+
 Property &vf::property() {
   static Property p{
       "C06",
@@ -264,6 +295,7 @@ Property &vf::property() {
           {"yscramble_sched", gen_ysched, pred_ysched, 120, 800, 100},
 #endif
           {"freerun", gen_free, pred_free, 240, 1200, 100},
+          {"reseed", gen_reseed, pred_reseed, 400, 4000, 100},
       }};
   return p;
 }
